@@ -764,6 +764,12 @@ def matrix_roundtrip_bad(n, seed, kind):
     elif kind == "hermitian":
         A = rng.normal(size=(N, N)) + 1j * rng.normal(size=(N, N))
         M = np.round(A + A.conj().T, 3)
+    elif kind in ("int", "npint"):
+        M = rng.integers(-3, 4, size=(N, N))
+        op = get_pauliop_from_matrix(M.tolist() if kind == "int" else M)
+        back = PL.dense(PL.cmap_of(op), n)
+        d = np.abs(back - M).max()
+        return None if d < 1e-7 else f"Pauli expansion of a {N}x{N} matrix of {'Python ints' if kind == 'int' else 'numpy ints'} converts back with error {d:.3g}"
     elif kind == "sparse":
         M = np.zeros((N, N), dtype=complex)
         M[0, N - 1] = 1.5
@@ -901,7 +907,7 @@ def instances(tier, seed):
     ]):
         items.append(("labels", {"coeffs": coeffs, "labels": labels, "label": f"coeffs+labels #{k} {coeffs} {labels}"}))
     for n in (1, 2, 3):
-        for mk in ("real", "complex", "hermitian", "sparse", "identity"):
+        for mk in ("real", "complex", "hermitian", "sparse", "identity", "int", "npint"):
             for k in range(1 if tier == "quick" or n == 3 else 4):
                 items.append(("matrix", {"n": n, "seed": rng.randrange(10**6), "mkind": mk, "label": f"matrix round trip n={n} {mk} #{k}"}))
     return items
